@@ -73,21 +73,22 @@ type rec struct {
 }
 
 type Summary struct {
-	Rotations        int
-	SizeRotations    int
-	TimeRotations    int
-	Pruned           int
-	Reopens          int
-	Renames          int
-	Boundary         int // rotation decided with bytesSinceOpen == MaxBytes exactly
-	UncertainTime    int
-	CertainTimeRot   int
-	CertainTimeNoRot int
-	WriteErrors      int
-	Acked            int
-	Restarts         int
-	Touches          int
-	IdleAfterReopen  int
+	Rotations             int
+	SizeRotations         int
+	TimeRotations         int
+	Pruned                int
+	Reopens               int
+	Renames               int
+	Boundary              int // rotation decided with bytesSinceOpen == MaxBytes exactly
+	UncertainTime         int
+	CertainTimeRot        int
+	CertainTimeNoRot      int
+	WriteErrors           int
+	Acked                 int
+	Restarts              int
+	Touches               int
+	IdleAfterReopen       int
+	PrunedOutsideRotation int
 }
 
 // Violation carries the property it belongs to.
@@ -384,7 +385,15 @@ func (r *Runner) Step(op Op) *Violation {
 		}
 		r.Sum.Reopens++
 		if len(removed) > 0 {
-			return &Violation{"C15", fmt.Sprintf("Reopen removed file(s) %s", names(removed))}
+			// the statements fix what retention may take (only surplus rotated files, oldest first), not when it runs
+			cand := r.active
+			if len(created) > 0 {
+				cand = created[len(created)-1]
+			}
+			if v := r.legalPrune(removed, cand, "Reopen"); v != nil {
+				return v
+			}
+			r.Sum.PrunedOutsideRotation += len(removed)
 		}
 		if ok, _ := r.checkStream(nil); !ok {
 			return &Violation{"C08", fmt.Sprintf("after Reopen the files no longer hold exactly the acknowledged events: %s", r.describeFiles())}
@@ -449,7 +458,10 @@ func (r *Runner) Step(op Op) *Violation {
 				return &Violation{"C08", fmt.Sprintf("files %s disappeared although no retention limit is configured", names(removed))}
 			}
 			if len(created) == 0 && err == nil {
-				return &Violation{"C15", fmt.Sprintf("files %s were removed by a write that did not rotate", names(removed))}
+				if v := r.legalPrune(removed, r.active, "a write that did not rotate"); v != nil {
+					return v
+				}
+				r.Sum.PrunedOutsideRotation += len(removed)
 			}
 		}
 		if err != nil {
@@ -552,6 +564,41 @@ func (r *Runner) Step(op Op) *Violation {
 		}
 		r.isOpen, r.unsure = true, false
 		return r.checkNewFiles(created)
+	}
+	return nil
+}
+
+// legalPrune: files may disappear only through the retention limit: MaxFiles is set, every removed file is a
+// rotated file of this sink (never the active file, an externally renamed segment or a foreign file), more than
+// MaxFiles rotated files existed, and nothing newer than a kept rotated file was taken.
+func (r *Runner) legalPrune(removed []*rec, active *rec, who string) *Violation {
+	c := r.Cfg
+	for _, x := range removed {
+		if _, isPat := r.patternTS(x.name); !isPat || x.moved || x == active {
+			return &Violation{"C15", fmt.Sprintf("%s removed %q, which is outside the rotated-file name space (or the active file)", who, x.name)}
+		}
+	}
+	if c.MaxFiles == 0 {
+		return &Violation{"C08", fmt.Sprintf("files %s disappeared (%s) although no retention limit is configured", names(removed), who)}
+	}
+	var pat []*rec
+	for _, x := range r.recs {
+		if x.removed || x.moved || x == active {
+			continue
+		}
+		if _, ok := r.patternTS(x.name); ok {
+			pat = append(pat, x)
+		}
+	}
+	if len(pat) < c.MaxFiles {
+		return &Violation{"C15", fmt.Sprintf("%s removed %s although only %d rotated files remain, MaxFiles=%d", who, names(removed), len(pat), c.MaxFiles)}
+	}
+	for _, x := range removed {
+		for _, y := range pat {
+			if x.key > y.key {
+				return &Violation{"C15", fmt.Sprintf("%s removed %s although the older %s was kept", who, x.name, y.name)}
+			}
+		}
 	}
 	return nil
 }
